@@ -102,7 +102,8 @@ def rref(to, unique=False, parent=None):
 
 def gen_recipe(rng, t=None, p=None, layout=None, unique=None):
     layout = layout or rng.choice(["table", "nick", "two_templates", "friend", "just_once", "nested", "forward_reserved",
-                                   "friend_nick", "nested_nick", "once_plus_repeating", "reserved_then_nick"])
+                                   "friend_nick", "nested_nick", "once_plus_repeating", "reserved_then_nick",
+                                   "nick_like_table"])
     t = rng.randint(0, 6) if t is None else t
     p = rng.randint(0, 8) if p is None else p
     unique = (rng.random() < 0.5) if unique is None else unique
@@ -142,6 +143,9 @@ def gen_recipe(rng, t=None, p=None, layout=None, unique=None):
         to = "aa"
         stmts = [tpl("F", 1, fields={"fwd": {"reference": "a2"}}), tpl("A", max(1, t % 3), nick="aa"),
                  tpl("A", 1, nick="a2"), tpl("P", max(p, 1), fields={"r": rref("aa", unique)})]
+    elif layout == "nick_like_table":     # a friend's nickname is spelled like the target table's name
+        stmts = [tpl("A", rng.randint(1, 2)), tpl("W", rng.randint(2, 3), friends=[tpl("K", rng.randint(1, 2), nick="A")]),
+                 tpl("P", max(p, 2), fields={"r": rref("A", unique), "q": rref("K", False)})]
     stmts.append(tpl(MARK))
     reps = rng.choice([1, 1, 2, 3])
     ks = [reps]
